@@ -223,7 +223,7 @@ def idempotent_check(si, mult, x, s, arm):
 def ob_idempotent(si: int, mult: int, x: int, s: str, arm: bool) -> int:
     """
     pre: 0 <= si < N_SITES and si % SHARD_N == SHARD_I
-    pre: 0 <= mult <= 3
+    pre: 0 <= mult <= 4
     pre: -3 <= x <= 3 and len(s) <= 1 and s.isascii()
     post: _ == 0
     """
@@ -233,7 +233,7 @@ def ob_idempotent(si: int, mult: int, x: int, s: str, arm: bool) -> int:
 def reach_idempotent(si: int, mult: int, x: int, s: str, arm: bool) -> int:
     """
     pre: 0 <= si < N_SITES and si % SHARD_N == SHARD_I
-    pre: 0 <= mult <= 3
+    pre: 0 <= mult <= 4
     pre: -3 <= x <= 3 and len(s) <= 1 and s.isascii()
     post: _ != 0
     """
@@ -313,7 +313,8 @@ def rejected_api_check(which):
     """Through LogicalFile.add_*: an invalid enumeration value, an invalid reference, an invalid cast dtype."""
     df, (lf,) = new_file(1)
     add_origin(lf, 'O')
-    cls = [eflr_types.ZoneSet, eflr_types.ParameterSet, eflr_types.ChannelSet, eflr_types.ChannelSet][which]
+    cls = [eflr_types.ZoneSet, eflr_types.ParameterSet, eflr_types.ChannelSet, eflr_types.ChannelSet,
+           eflr_types.ChannelSet, eflr_types.ChannelSet, eflr_types.ChannelSet][which]
     try:
         if which == 0:
             lf.add_zone('Z', domain='NOT-A-DOMAIN')
@@ -321,8 +322,14 @@ def rejected_api_check(which):
             lf.add_parameter('Z', zones=['not a zone'])
         elif which == 2:
             lf.add_channel('Z', cast_dtype='not a dtype')
-        else:
+        elif which == 3:
             lf.add_channel('Z', data='not an array')
+        elif which == 4:
+            lf.add_channel('Z', cast_dtype=0)              # invalid and falsy
+        elif which == 5:
+            lf.add_channel('Z', cast_dtype='')
+        else:
+            lf.add_channel('Z', cast_dtype=False)
     except REJECT:
         pass
     else:
@@ -343,7 +350,7 @@ def rejected_api_check(which):
 
 def ob_rejected_api(which: int) -> int:
     """
-    pre: 0 <= which <= 3
+    pre: 0 <= which <= 6
     post: _ == 0
     """
     return rejected_api_check(which)
@@ -351,7 +358,7 @@ def ob_rejected_api(which: int) -> int:
 
 def reach_rejected_api(which: int) -> int:
     """
-    pre: 0 <= which <= 3
+    pre: 0 <= which <= 6
     post: _ != 0
     """
     return rejected_api_check(which)
